@@ -2,6 +2,22 @@ module github.com/vulcand/oxy/v2/verifharness
 
 go 1.23.0
 
-require github.com/vulcand/oxy/v2 v2.0.0
+require (
+	github.com/segmentio/fasthash v1.0.3
+	github.com/vulcand/oxy/v2 v2.0.0
+)
+
+require (
+	github.com/HdrHistogram/hdrhistogram-go v1.1.2 // indirect
+	github.com/gravitational/trace v1.1.16-0.20220114165159-14a9a7dd6aaf // indirect
+	github.com/jonboulle/clockwork v0.4.0 // indirect
+	github.com/mailgun/multibuf v0.1.2 // indirect
+	github.com/sirupsen/logrus v1.9.3 // indirect
+	github.com/vulcand/predicate v1.2.0 // indirect
+	golang.org/x/crypto v0.36.0 // indirect
+	golang.org/x/net v0.37.0 // indirect
+	golang.org/x/sys v0.31.0 // indirect
+	golang.org/x/term v0.30.0 // indirect
+)
 
 replace github.com/vulcand/oxy/v2 => /repo
